@@ -84,7 +84,7 @@ func runOpPair(a *args, res *result) {
 	case "C04", "C10":
 		cacheKinds = nil
 		mapKinds = []string{"MapOf[int,val]", "MapOf[string,val]/const", "MapOf[skey,val]/sameh1"}
-	case "C01", "C02", "C09", "C06":
+	case "C01", "C02", "C09", "C06", "C08":
 		mapKinds = nil
 	case "C12":
 		mapKinds = []string{"Map", "MapOf[string,any]"}
@@ -105,6 +105,9 @@ func runOpPair(a *args, res *result) {
 		}
 	}
 	for _, kind := range cacheKinds {
+		if a.prop == "C08" {
+			break // only the sweep-overlap scenarios below
+		}
 		for _, st := range []string{"absent", "live", "expired"} {
 			for _, A := range cachePairOps() {
 				unit++
@@ -116,6 +119,13 @@ func runOpPair(a *args, res *result) {
 				}
 			}
 		}
+	}
+	for _, kind := range cacheKinds {
+		unit++
+		if !a.mine(unit - 1) {
+			continue
+		}
+		sweepOverlap(res, kind, stuckCh)
 	}
 	vshim.SetTokenMode(false)
 	res.sample(map[string]any{"map_kinds": mapKinds, "cache_kinds": cacheKinds, "map_ops": len(mapPairOps()), "cache_ops": len(cachePairOps())})
@@ -328,4 +338,113 @@ func indexByte(s string, c byte) int {
 		}
 	}
 	return -1
+}
+
+// sweepOverlap: a DeleteExpired pass A is suspended at each of its steps, the
+// clock then passes the expiry of another entry Y, and a second pass B runs. When
+// B returns, everything that had expired when B was invoked must have been
+// removed and reported - whatever A is doing. Finally, after A has been resumed,
+// each of the two expired entries has been reported exactly once and Count is
+// the number of live entries.
+func sweepOverlap(res *result, kind string, stuckCh chan string) {
+	for N := int64(1); N < 400; N++ {
+		vshim.SetVNow(epoch)
+		led := &ledger{}
+		c := newCache(cacheSpec{Flavor: kind, Ctor: "New", OptMask: 1 | 2 | 4, DefExp: time.Hour, Interval: 0, NKeys: 64, Callback: led.cb(1)})
+		for k := 10; k < 17; k++ {
+			c.Set(k, nextVal(k), time.Hour)
+		}
+		vx, vy := nextVal(1), nextVal(2)
+		c.Set(1, vx, 5)
+		c.Set(2, vy, 50)
+		vshim.SetVNow(epoch + 10)
+		logCase("oppair sweep-overlap %s N=%d", kind, N)
+		res.Evaluations++
+		vshim.SetTokenMode(true)
+		vshim.ResetGStep()
+		vshim.SetStepBudget(0)
+		vshim.SetMode(vshim.MGlobal | vshim.MPoll | vshim.MCount)
+		adone := make(chan struct{})
+		bdone := make(chan struct{})
+		vshim.ArmPark(N)
+		go func() { c.DeleteExpired(); close(adone) }()
+		var tok *vshim.ParkToken
+		select {
+		case tok = <-vshim.ParkedTokens():
+		case <-adone:
+		}
+		vshim.ArmPark(0)
+		if tok == nil {
+			vshim.SetMode(0)
+			return
+		}
+		res.count("scenarios_parked", 1)
+		fp := newFP()
+		fp.addStr("sweep-overlap" + kind)
+		fp.add(uint64(N))
+		res.nontrivial(fp.sum())
+		vshim.SetVNow(epoch + 100) // Y has expired now
+		vshim.ArmSpinNotify()
+		go func() { c.DeleteExpired(); close(bdone) }()
+		bReturned := false
+		stuck := ""
+		select {
+		case <-bdone:
+			bReturned = true
+		case <-vshim.SpinNotified():
+		case stuck = <-stuckCh:
+		}
+		vshim.DisarmSpinNotify()
+		bad := func(sig, msg string) {
+			res.violate(violation{Class: "oppair", Sig: sig, Msg: fmt.Sprintf("%s, first DeleteExpired parked at its step %d: %s", kind, N, msg), Case: map[string]any{"kind": kind, "N": N}})
+		}
+		reported := func(v any) int {
+			led.mu.Lock()
+			defer led.mu.Unlock()
+			n := 0
+			for _, e := range led.entries {
+				if e.V == v {
+					n++
+				}
+			}
+			return n
+		}
+		if bReturned && reported(vy) != 1 {
+			bad("DeleteExpired returns while an entry that had expired before it was invoked is still there", fmt.Sprintf("second pass returned, entry k2 (expired 50 ticks ago) reported %d times, Count()=%d", reported(vy), c.Count()))
+			tok.Resume()
+			<-adone
+			vshim.SetMode(0)
+			return
+		}
+		tok.Resume()
+		vshim.SetStepBudget(1 << 22)
+		for stuck == "" && !bReturned {
+			select {
+			case <-bdone:
+				bReturned = true
+			case late := <-vshim.ParkedTokens():
+				late.Resume()
+			case stuck = <-stuckCh:
+			}
+		}
+		if stuck == "" {
+			select {
+			case <-adone:
+			case late := <-vshim.ParkedTokens():
+				late.Resume()
+				<-adone
+			case stuck = <-stuckCh:
+			}
+		}
+		vshim.SetStepBudget(0)
+		vshim.SetMode(0)
+		if stuck != "" {
+			bad("overlapping DeleteExpired calls do not return", stuck)
+			return
+		}
+		if reported(vx) != 1 || reported(vy) != 1 || c.Count() != 7 {
+			bad("two overlapping DeleteExpired passes do not remove and report each expired entry exactly once", fmt.Sprintf("k1 reported %d times, k2 %d times, Count()=%d (7 live entries)", reported(vx), reported(vy), c.Count()))
+			return
+		}
+	}
 }
